@@ -18,6 +18,8 @@ CLASS_SHAPES = {
     'templated': "template<T = {{double, {Q2}}}>\nclass {N} {{\n  {N}(const T& t);\n  T get() const;\n  template<U = {{int, string}}> void put(const U& u, T t);\n  This copy() const;\n}};",
     'serial': "class {N} {{\n  {N}();\n  void serialize() const;\n  void constructor();\n  bool equals(const {Q}& o, double tol = 1e-9) const;\n}};",
     'empty': "class {N} {{\n}};",
+    'enumret': "enum {N}Mode {{ Fast, Slow }};\nclass {N} {{\n  {N}();\n  enum Kind {{ Dog, Cat }};\n  {N}Mode mode() const;\n  Kind kind() const;\n  void setBoth({N}Mode m, Kind k = Dog);\n  static {N}Mode Default();\n  static Kind Other(int i);\n}};",
+    'vserial': "virtual class {N} {{\n  {N}();\n  void serialize() const;\n  double get() const;\n}};",
     'ops': "class {N} {{\n  {N}();\n  {N} operator+(const {N}& other) const;\n  {N} operator-() const;\n  double operator[](size_t i) const;\n  __len__();\n}};",
 }
 OTHER_SHAPES = {
@@ -90,6 +92,11 @@ def build(spec):
         if shape in CLASS_SHAPES and shape != 'templated':
             qnames.append(q)
     return render(ents)
+
+
+def core_specs():
+    """every shape at every namespace placement on its own: always part of the bounded scope, whatever the seed"""
+    return [((shape, pi, 'A'),) for shape in list(CLASS_SHAPES) + list(OTHER_SHAPES) for pi in range(len(PLACEMENTS))]
 
 
 def sample(n, seed, max_entities=3, class_only=False):
